@@ -139,6 +139,24 @@ class VLoop(base_events.BaseEventLoop):
         self.handles_run += n
         return n
 
+    def step(self) -> bool:
+        """One loop iteration: the handles that are ready now, or - if none is - the timers due at the next timer instant.
+        False when nothing is left to do."""
+        if not self._ready:
+            nt = self.next_timer_us()
+            if nt is None:
+                return False
+            if nt > self.now_us:
+                self.now_us = nt
+            sched = self._scheduled
+            while sched and (sched[0]._cancelled or _us(sched[0]._when) <= self.now_us):
+                h = heapq.heappop(sched)
+                h._scheduled = False
+                if not h._cancelled:
+                    self._ready.append(h)
+        self.run_iteration()
+        return True
+
     def next_timer_us(self) -> Optional[int]:
         sched = self._scheduled
         while sched and sched[0]._cancelled:
